@@ -28,6 +28,7 @@ type c17case struct {
 	Edges  [][]int `json:"imports"` // Edges[i] = files imported by file i (in order; may repeat)
 	Root   int     `json:"root"`
 	DirImp []int   `json:"dir_importers"` // files that also import the directory "lib"
+	LibImp int     `json:"lib_imports"`   // file imported by lib/l100.yaml (the first file of the directory), -1 = none
 	Break  int     `json:"break"`         // index of a file made missing/broken (-1 none); -2 = a file of the directory
 	How    string  `json:"how"`           // missing | syntax | wrongtype
 }
@@ -84,7 +85,11 @@ func runC17(c *h.Ctx, idx int, cs c17case) {
 		h.WriteFile(real+"/"+c17path(i), content)
 	}
 	if len(cs.DirImp) > 0 {
-		h.WriteFile(real+"/lib/l100.yaml", fileDef(100, nil))
+		var libImps []string
+		if cs.LibImp >= 0 {
+			libImps = []string{relPath("lib/l100.yaml", c17path(cs.LibImp))}
+		}
+		h.WriteFile(real+"/lib/l100.yaml", fileDef(100, libImps))
 		l101 := fileDef(101, nil)
 		if cs.Break == -2 {
 			l101 = "tasks: [unclosed\n"
@@ -100,8 +105,12 @@ func runC17(c *h.Ctx, idx int, cs c17case) {
 	for len(q) > 0 {
 		x := q[0]
 		q = q[1:]
-		if usesDir[x] {
+		if usesDir[x] && !dirReached {
 			dirReached = true
+			if cs.LibImp >= 0 && !seen[cs.LibImp] {
+				seen[cs.LibImp] = true
+				q = append(q, cs.LibImp)
+			}
 		}
 		for _, y := range cs.Edges[x] {
 			if !seen[y] {
@@ -294,7 +303,7 @@ func c17(c *h.Ctx) {
 				}
 			}
 			for root := 0; root < n; root++ {
-				cases = append(cases, c17case{N: n, Edges: edges, Root: root, Break: -1})
+				cases = append(cases, c17case{N: n, Edges: edges, Root: root, Break: -1, LibImp: -1})
 			}
 		}
 	}
@@ -315,11 +324,15 @@ func c17(c *h.Ctx) {
 	}
 	// chains / diamonds with a broken leaf (nested import) — always present
 	for _, how := range []string{"missing", "syntax", "wrongtype"} {
-		cases = append(cases, c17case{N: 3, Edges: [][]int{{1}, {2}, {}}, Root: 0, Break: 2, How: how})
-		cases = append(cases, c17case{N: 2, Edges: [][]int{{1}, {}}, Root: 0, Break: 1, How: how})
-		cases = append(cases, c17case{N: 4, Edges: [][]int{{1, 2}, {3}, {3}, {}}, Root: 0, Break: 3, How: how})
+		cases = append(cases, c17case{N: 3, Edges: [][]int{{1}, {2}, {}}, Root: 0, Break: 2, How: how, LibImp: -1})
+		cases = append(cases, c17case{N: 2, Edges: [][]int{{1}, {}}, Root: 0, Break: 1, How: how, LibImp: -1})
+		cases = append(cases, c17case{N: 4, Edges: [][]int{{1, 2}, {3}, {3}, {}}, Root: 0, Break: 3, How: how, LibImp: -1})
 	}
-	cases = append(cases, c17case{N: 2, Edges: [][]int{{1}, {}}, Root: 0, DirImp: []int{1}, Break: -2, How: "syntax"})
+	cases = append(cases, c17case{N: 2, Edges: [][]int{{1}, {}}, Root: 0, DirImp: []int{1}, Break: -2, How: "syntax", LibImp: -1})
+	// a directory whose first file has an import of its own, followed by plain files
+	cases = append(cases, c17case{N: 2, Edges: [][]int{{}, {}}, Root: 0, DirImp: []int{0}, Break: -1, LibImp: 1})
+	cases = append(cases, c17case{N: 3, Edges: [][]int{{1}, {}, {}}, Root: 0, DirImp: []int{1}, Break: -1, LibImp: 2})
+	cases = append(cases, c17case{N: 1, Edges: [][]int{{}}, Root: 0, DirImp: []int{0}, Break: -1, LibImp: 0})
 	for i := 0; i < c.N(150, 6000); i++ {
 		n := rnd.Range(4, 6)
 		edges := make([][]int, n)
@@ -333,9 +346,12 @@ func c17(c *h.Ctx) {
 				edges[x] = append(edges[x], edges[x][0]) // the same import listed twice
 			}
 		}
-		cs := c17case{N: n, Edges: edges, Root: rnd.Intn(n), Break: -1}
+		cs := c17case{N: n, Edges: edges, Root: rnd.Intn(n), Break: -1, LibImp: -1}
 		if rnd.Chance(40) {
 			cs.DirImp = []int{rnd.Intn(n)}
+			if rnd.Chance(50) {
+				cs.LibImp = rnd.Intn(n)
+			}
 			if rnd.Chance(30) {
 				cs.DirImp = append(cs.DirImp, rnd.Intn(n))
 			}
